@@ -558,6 +558,12 @@ func c10RealDeadline(o *Out, r *rand.Rand) {
 			o.Violate("c10.real.success-without-answer", fmt.Sprintf("%s returned nil although no server answered before the %s", what, how), rp)
 			return
 		}
+		if deliveries == 0 {
+			// (a starved machine: the request had not reached a handler when the caller gave up – at
+			// most one delivery all the same)
+			o.Note("real-deadline %s mode=%v: the request never reached a handler before the caller's %s", what, c.mode, how)
+			continue
+		}
 		if deliveries != 1 {
 			o.Violate("c10.real.redelivered-after-context-ended", fmt.Sprintf("%s in %v mode with %d retries: the request reached servers %d times although the caller's %s while the first attempt was unanswered (want exactly 1)",
 				what, c.mode, c.retries, deliveries, how), rp)
